@@ -25,7 +25,7 @@ def knownMutators : List String :=
 /-- public methods that do not change structure (accessors, attribute setters, copies, `freeze` itself) -/
 def knownNonStructural : List String :=
   ["nodes", "edges", "num_nodes", "num_edges", "set_node_attributes", "set_edge_attributes", "copy", "dual",
-   "freeze", "is_frozen", "has_simplex"]
+   "freeze", "is_frozen", "has_simplex", "__setitem__"]
 
 /-- **second obligation tied to the source**: every public method defined by the three classes (regenerated from the
     source on every run) is classified.  A new public method — a possible new mutator that `freeze()` would have to
